@@ -40,8 +40,9 @@ Theorem C10_deleted_then_gone : forall s i x, NoDup (map fst (st_objs s)) ->
 Proof. exact deleted_then_gone. Qed.
 
 (* replaced content is what is read afterwards: the document merged into the stored object by
-   update_from (attributes copied, qualifiers and nested elements merged by update_nss_from) *)
-Theorem C10_replaced_then_read : forall s i x x', zlookup i (st_objs s) = Some (OSm x) -> st_backed s = false ->
+   update_from (attributes copied, qualifiers and nested elements merged by update_nss_from) - for a document that
+   carries the id of the stored object, on in-memory and local-file backed stores alike ... *)
+Theorem C10_replaced_then_read : forall s i x x', zlookup i (st_objs s) = Some (OSm x) -> sm_id x' = sm_id x ->
   let '(s1, r1) := handle s (put_sm i x') in
   status r1 = 204 /\
   pay (snd (handle s1 (get_sm_rq i))) =
@@ -49,17 +50,48 @@ Theorem C10_replaced_then_read : forall s i x x', zlookup i (st_objs s) = Some (
                  sm_quals := merge_quals (sm_quals x) (sm_quals x');
                  sm_ch := update_children (sm_ch x) (sm_ch x') |}).
 Proof. exact replaced_then_read. Qed.
+(* ... for a document that carries another id, which no stored object has, the PUT re-keys the object as a map does:
+   afterwards the old id is not found, the new id holds the updated object, every other id holds what it held ... *)
+Theorem C10_rekeyed_then_read : forall s i x x', NoDup (map fst (st_objs s)) ->
+  zlookup i (st_objs s) = Some (OSm x) -> sm_id x = i ->
+  sm_id x' <> i -> zlookup (sm_id x') (st_objs s) = None ->
+  let '(s1, r1) := handle s (put_sm i x') in
+  status r1 = 204 /\
+  handle s1 (get_sm_rq i) = (s1, {| status := 404; rtype := AccJson; location := None; pay := PResult "NotFound" |}) /\
+  handle s1 (get_sm_rq (sm_id x')) =
+    (s1, {| status := 200; rtype := AccJson; location := None;
+            pay := PVal (VSm {| sm_id := sm_id x'; sm_ids := sm_ids x'; sm_tok := sm_tok x';
+                                sm_quals := merge_quals (sm_quals x) (sm_quals x');
+                                sm_ch := update_children (sm_ch x) (sm_ch x') |}) |}) /\
+  (forall j, j <> i -> j <> sm_id x' -> zlookup j (st_objs s1) = zlookup j (st_objs s)).
+Proof. exact rekeyed_then_read. Qed.
+(* ... and an id that belongs to another stored object is refused with 409, nothing changed *)
+Theorem C10_rekey_conflict : forall s i x x' o, zlookup i (st_objs s) = Some (OSm x) -> sm_id x = i ->
+  sm_id x' <> i -> zlookup (sm_id x') (st_objs s) = Some o ->
+  handle s (put_sm i x') = (s, {| status := 409; rtype := AccJson; location := None; pay := PResult "Conflict" |}).
+Proof. exact rekey_conflict. Qed.
+(* the hypotheses are satisfiable: a local-file backed store with the submodels 1 and 5; PUT of 1 with id 2 leaves the
+   keys 5, 2; PUT of 1 with id 5 is refused *)
+Example C10_rekey_example :
+  (NoDup (map fst (st_objs rekey_state)) /\ zlookup 1 (st_objs rekey_state) = Some (OSm example_sm) /\
+   zlookup 2 (st_objs rekey_state) = None /\ zlookup 5 (st_objs rekey_state) <> None) /\
+  map fst (st_objs (fst (handle rekey_state (put_sm 1 (filter_sm 2 8))))) = [5; 2] /\
+  handle rekey_state (put_sm 1 (filter_sm 5 8)) =
+    (rekey_state, {| status := 409; rtype := AccJson; location := None; pay := PResult "Conflict" |}).
+Proof. exact rekey_example. Qed.
 
-(* every resource is filed under exactly its own identifier - full statement ... *)
-Definition C10_own_id_full : Prop := forall rs k o, In (k, o) (st_objs (run (empty false) rs)) -> obj_id o = k.
-(* ... refuted by the pinned code (known finding C10:own-id:after-id-changing-put): a PUT whose body
-   carries another id leaves the object filed under the old key *)
-Theorem C10_own_id_refuted : ~ own_ids (run (empty false) rename_history).
-Proof. exact rename_breaks_own_ids. Qed.
-(* ... and true for every history without such a PUT (hypothesis = exactly the excluded input class:
-   requests whose body id differs from the id in the URL) *)
-Theorem C10_own_id_partial : forall rs b, Forall body_id_matches rs -> own_ids (run (empty b) rs).
-Proof. intros rs b F. exact (own_ids_history rs (empty b) (own_ids_empty b) F). Qed.
+(* every resource is filed under exactly its own identifier, after every request history (shells, submodels and concept
+   descriptions; in-memory and local-file backed stores): every PUT of an Identifiable goes through
+   WSGIApp._update_identifiable, which files the object anew when its id changes *)
+Theorem C10_own_id : forall rs b k o, In (k, o) (st_objs (run (empty b) rs)) -> obj_id o = k.
+Proof. exact own_ids_reachable. Qed.
+(* e.g. after POST of submodel 1 and PUT of it with a document whose id is 2: the store holds the key 2 only, the old
+   id answers 404 (DELETE), the new one is read *)
+Example C10_own_id_example : forall b,
+  map fst (st_objs (run (empty b) rename_history)) = [2] /\
+  status (snd (handle (run (empty b) rename_history) delete_renamed)) = 404 /\
+  pay (snd (handle (run (empty b) rename_history) (rq "/submodels/<base64url:submodel_id>" MGet (IdOk 2) BNoCtype))) = PVal (sm_doc 2).
+Proof. exact rename_example. Qed.
 
 (* following the paging cursor visits every element of a listing exactly once, for every limit > 0:
    the k-th page is what _get_slice answers for cursor = k*limit, its cursor is the next page's ... *)
@@ -100,6 +132,6 @@ Proof. exact persist_committed. Qed.
 
 Example C10_example_history :
   let rs := [post_sm example_sm; put_sm 1 example_sm; get_sm_rq 1; del_sm 1; get_sm_rq 1] in
-  Forall body_id_matches rs /\ st_objs (run (empty true) rs) = [] /\
+  st_objs (run (empty true) rs) = [] /\
   map (fun r => status (snd (handle (run (empty true) [post_sm example_sm]) r))) rs = [409; 204; 200; 204; 200].
 Proof. exact example_history. Qed.
